@@ -181,6 +181,15 @@ theorem C11_deadlock_only_at_second_locks {D : Type} (ops : DoubleOps D) (e : Ex
   eval_no_deadlock_other ops e au st h
 #assert_axioms C11_deadlock_only_at_second_locks
 
+/-- the evaluator itself never loops: `livelock` is an outcome of parsing only.  (The outcome
+`fuelOut` of the model's `==` / `Display` recursion through the heap is not excluded by a theorem:
+each level locks a fresh cell, so `cells.length + 1` levels suffice — tier B, never observed in
+the differential runs.) -/
+theorem C11_evaluator_no_livelock {D : Type} (ops : DoubleOps D) (e : Expr) (au : Bool)
+    (st : St D) (h : st.held = []) : (eval ops e au st).2 ≠ .livelock :=
+  eval_no_livelock ops e au st h
+#assert_axioms C11_evaluator_no_livelock
+
 /-- **no self-deadlock when the operand cells are distinct**: `l = r`, `l ?= r` and `l[i]` do not
 block when the two sub-expressions evaluate to different cells.
 Missing for "never blocks on its own data locks": equal cells (false on the unchanged code:
